@@ -98,17 +98,26 @@ theorem drunS_buf (srv : DServer) (fuel i : Nat) (s : DIter) (h : dbufHas s = tr
   rw [drunS]; simp only [h, if_true]; rfl
 
 theorem drunS_stop (srv : DServer) (fuel i : Nat) (s : DIter) (h : dbufHas s = false)
+    (he : (s.apply (srv i s.off s.limit).1 (srv i s.off s.limit).2).err = false)
     (h' : dbufHas (s.apply (srv i s.off s.limit).1 (srv i s.off s.limit).2) = false) :
     drunS srv (fuel + 1) i s = { yields := [], reqs := [(s.off, s.limit)], done := true } := by
-  rw [drunS]; simp only [h, h', Bool.false_eq_true, if_false]
+  rw [drunS]; simp only [h, h', he, Bool.false_eq_true, if_false]
 
 theorem drunS_go (srv : DServer) (fuel i : Nat) (s : DIter) (h : dbufHas s = false)
+    (he : (s.apply (srv i s.off s.limit).1 (srv i s.off s.limit).2).err = false)
     (h' : dbufHas (s.apply (srv i s.off s.limit).1 (srv i s.off s.limit).2) = true) :
     drunS srv (fuel + 1) i s =
       let s' := s.apply (srv i s.off s.limit).1 (srv i s.off s.limit).2
       let o := drunS srv fuel (i + 1) s'.adv
-      { yields := s'.buf.getD s'.pos Dlg.zero :: o.yields, reqs := (s.off, s.limit) :: o.reqs, done := o.done } := by
-  rw [drunS]; simp only [h, h', Bool.false_eq_true, if_false, if_true]; rfl
+      { yields := s'.buf.getD s'.pos Dlg.zero :: o.yields, reqs := (s.off, s.limit) :: o.reqs, done := o.done,
+        err := o.err } := by
+  rw [drunS]; simp only [h, Bool.false_eq_true, if_false]
+  split
+  all_goals first
+    | rfl
+    | (rename_i hh; rw [he] at hh; cases hh)
+    | (rename_i hh; rw [h'] at hh; exact absurd rfl hh)
+    | (rename_i _ hh; rw [h'] at hh; exact absurd rfl hh)
 
 theorem dpending_consume (ds : List Dlg) (s : DIter) (h : dbufHas s = true) :
     dpending ds s = s.buf.getD s.pos Dlg.zero :: dpending ds s.adv := by
@@ -134,11 +143,13 @@ theorem dlbRule_slice (n L : Nat) : lbRule (dlbCode .slice) n L = decide (n = 0)
   simp [dlbCode, Facts.C39.dlgLastBatchSlice, lbRule]
 
 theorem dapply_hist (ds : List Dlg) (hd : DescD ds) (hp : ∀ x ∈ ds, x ≠ Dlg.zero) (ks : List Kind) (cap i : Nat)
-    (s : DIter) (hL : 0 < min s.limit cap) (h : dbufHas s = false) (hlb : s.lastBatch = false) :
+    (s : DIter) (hN : ∀ d ∈ ds, d.peer ∉ s.noEntity) (hE : s.err = false)
+    (hL : 0 < min s.limit cap) (h : dbufHas s = false) (hlb : s.lastBatch = false) :
     let a := dlgServer ds ks cap i s.off s.limit
     let s' := s.apply a.1 a.2
-    (dpending ds s = [] ∧ dbufHas s' = false) ∨
-    (dbufHas s' = true ∧ dpending ds s' = dpending ds s ∧ s'.limit = s.limit) := by
+    (s'.err = false ∧ s'.noEntity = s.noEntity) ∧
+    ((dpending ds s = [] ∧ dbufHas s' = false) ∨
+     (dbufHas s' = true ∧ dpending ds s' = dpending ds s ∧ s'.limit = s.limit)) := by
   have hb : ¬ s.pos < s.buf.length := by simpa [dbufHas_eq] using h
   have hpend : dpending ds s = belowD ds s.off := by
     simp [dpending, hlb, List.drop_eq_nil_of_le (Nat.le_of_not_lt hb)]
@@ -146,19 +157,27 @@ theorem dapply_hist (ds : List Dlg) (hd : DescD ds) (hp : ∀ x ∈ ds, x ≠ Dl
   generalize hps : min s.limit cap = ps at hL ⊢
   cases hlast : ((belowD ds s.off).take ps).getLast? with
   | none =>
-    left
     have hnil : (belowD ds s.off).take ps = [] := List.getLast?_eq_none_iff.mp hlast
     have hrem : belowD ds s.off = [] := by
       rcases List.take_eq_nil_iff.mp hnil with h | h
       · omega
       · exact h
-    refine ⟨by rw [hpend, hrem], ?_⟩
+    refine ⟨by simp [DIter.apply, hlb, hnil, hE], Or.inl ⟨by rw [hpend, hrem], ?_⟩⟩
     simp [DIter.apply, hlb, hnil, dbufHas_eq]
   | some m =>
-    right
     have hne : (belowD ds s.off).take ps ≠ [] := by
       intro h; rw [h] at hlast; simp at hlast
     have hlenpos := List.length_pos_iff.mpr hne
+    have hmem : m ∈ ds := by
+      have h1 : m ∈ (belowD ds s.off).take ps := List.mem_of_getLast? hlast
+      have h2 : m ∈ belowD ds s.off := List.mem_of_mem_take h1
+      unfold belowD at h2
+      split at h2
+      · exact h2
+      · exact (List.mem_filter.mp h2).1
+    have hcont : s.noEntity.contains m.peer = false := by
+      have := hN m hmem
+      simp [this]
     by_cases hfull : (ks.getD i Kind.slice = Kind.full) ∧ (belowD ds s.off).length ≤ ps
     · -- complete answer: `messages.dialogs`
       have hk : respKindD (ks.getD i Kind.slice) (belowD ds s.off).length ps = .full := by
@@ -166,7 +185,7 @@ theorem dapply_hist (ds : List Dlg) (hd : DescD ds) (hp : ∀ x ∈ ds, x ≠ Dl
       have htake : (belowD ds s.off).take ps = belowD ds s.off := List.take_of_length_le hfull.2
       rw [hpend]
       simp only [hk, DIter.apply, hlb, Bool.false_eq_true, if_false, dlbRule_full, hlast, if_true]
-      refine ⟨by simpa [dbufHas_eq] using hlenpos, ?_, trivial⟩
+      refine ⟨⟨hE, trivial⟩, Or.inr ⟨by simpa [dbufHas_eq] using hlenpos, ?_, trivial⟩⟩
       simp [dpending, htake]
     · have hk : respKindD (ks.getD i Kind.slice) (belowD ds s.off).length ps = .slice := by
         unfold respKindD
@@ -178,44 +197,155 @@ theorem dapply_hist (ds : List Dlg) (hd : DescD ds) (hp : ∀ x ∈ ds, x ≠ Dl
         | channel => rfl
       have hlen0 : ¬ ((belowD ds s.off).take ps).length = 0 := by omega
       rw [hpend]
-      simp only [hk, DIter.apply, hlb, Bool.false_eq_true, if_false, dlbRule_slice, hlast, hlen0, decide_false]
-      refine ⟨by simpa [dbufHas_eq] using hlenpos, ?_, trivial⟩
+      simp only [hk, DIter.apply, hlb, Bool.false_eq_true, if_false, dlbRule_slice, hlast, hlen0, decide_false,
+        hcont, Bool.and_false]
+      refine ⟨⟨hE, trivial⟩, Or.inr ⟨by simpa [dbufHas_eq] using hlenpos, ?_, trivial⟩⟩
+      have := belowD_last ds hd hp s.off ps m hlast
+      simp only [dpending, List.drop_zero, Bool.false_eq_true, if_false, this]
+      exact List.take_append_drop _ _
+
+theorem dapply_gen (ds : List Dlg) (hd : DescD ds) (hp : ∀ x ∈ ds, x ≠ Dlg.zero) (ks : List Kind) (cap i : Nat)
+    (s : DIter) (hE : s.err = false)
+    (hL : 0 < min s.limit cap) (h : dbufHas s = false) (hlb : s.lastBatch = false) :
+    let a := dlgServer ds ks cap i s.off s.limit
+    let s' := s.apply a.1 a.2
+    s'.err = true ∨
+    ((s'.err = false ∧ s'.noEntity = s.noEntity) ∧
+     ((dpending ds s = [] ∧ dbufHas s' = false) ∨
+      (dbufHas s' = true ∧ dpending ds s' = dpending ds s ∧ s'.limit = s.limit))) := by
+  have hb : ¬ s.pos < s.buf.length := by simpa [dbufHas_eq] using h
+  have hpend : dpending ds s = belowD ds s.off := by
+    simp [dpending, hlb, List.drop_eq_nil_of_le (Nat.le_of_not_lt hb)]
+  simp only [dlgServer]
+  generalize hps : min s.limit cap = ps at hL ⊢
+  cases hlast : ((belowD ds s.off).take ps).getLast? with
+  | none =>
+    have hnil : (belowD ds s.off).take ps = [] := List.getLast?_eq_none_iff.mp hlast
+    have hrem : belowD ds s.off = [] := by
+      rcases List.take_eq_nil_iff.mp hnil with h | h
+      · omega
+      · exact h
+    refine Or.inr ⟨by simp [DIter.apply, hlb, hnil, hE], Or.inl ⟨by rw [hpend, hrem], ?_⟩⟩
+    simp [DIter.apply, hlb, hnil, dbufHas_eq]
+  | some m =>
+    have hne : (belowD ds s.off).take ps ≠ [] := by
+      intro h; rw [h] at hlast; simp at hlast
+    have hlenpos := List.length_pos_iff.mpr hne
+    by_cases hfull : (ks.getD i Kind.slice = Kind.full) ∧ (belowD ds s.off).length ≤ ps
+    · -- complete answer: `messages.dialogs`
+      have hk : respKindD (ks.getD i Kind.slice) (belowD ds s.off).length ps = .full := by
+        unfold respKindD; rw [hfull.1]; simp [hfull.2]
+      have htake : (belowD ds s.off).take ps = belowD ds s.off := List.take_of_length_le hfull.2
+      rw [hpend]
+      simp only [hk, DIter.apply, hlb, Bool.false_eq_true, if_false, dlbRule_full, hlast, if_true]
+      refine Or.inr ⟨⟨hE, trivial⟩, Or.inr ⟨by simpa [dbufHas_eq] using hlenpos, ?_, trivial⟩⟩
+      simp [dpending, htake]
+    · have hk : respKindD (ks.getD i Kind.slice) (belowD ds s.off).length ps = .slice := by
+        unfold respKindD
+        cases hkk : ks.getD i Kind.slice with
+        | full =>
+          have : ¬ (belowD ds s.off).length ≤ ps := fun hh => hfull ⟨hkk, hh⟩
+          simp [this]
+        | slice => rfl
+        | channel => rfl
+      have hlen0 : ¬ ((belowD ds s.off).take ps).length = 0 := by omega
+      rw [hpend]
+      cases hcont : s.noEntity.contains m.peer with
+      | true =>
+        left
+        simp only [hk, DIter.apply, hlb, Bool.false_eq_true, if_false, dlbRule_slice, hlast, hlen0, decide_false,
+          hcont, Facts.C39.dlgOffsetPeerFromEntities, Bool.and_self, if_true]
+      | false =>
+      simp only [hk, DIter.apply, hlb, Bool.false_eq_true, if_false, dlbRule_slice, hlast, hlen0, decide_false,
+        hcont, Bool.and_false]
+      refine Or.inr ⟨⟨hE, trivial⟩, Or.inr ⟨by simpa [dbufHas_eq] using hlenpos, ?_, trivial⟩⟩
       have := belowD_last ds hd hp s.off ps m hlast
       simp only [dpending, List.drop_zero, Bool.false_eq_true, if_false, this]
       exact List.take_append_drop _ _
 
 theorem drunS_exact (ds : List Dlg) (hd : DescD ds) (hp : ∀ x ∈ ds, x ≠ Dlg.zero) (ks : List Kind)
     (cap : Nat) (hcap : 0 < cap) :
-    ∀ (fuel i : Nat) (s : DIter), 0 < s.limit → (dpending ds s).length < fuel →
+    ∀ (fuel i : Nat) (s : DIter), (∀ d ∈ ds, d.peer ∉ s.noEntity) → s.err = false →
+      0 < s.limit → (dpending ds s).length < fuel →
       (drunS (dlgServer ds ks cap) fuel i s).yields = dpending ds s ∧
-      (drunS (dlgServer ds ks cap) fuel i s).done = true := by
+      (drunS (dlgServer ds ks cap) fuel i s).done = true ∧
+      (drunS (dlgServer ds ks cap) fuel i s).err = false := by
   intro fuel
   induction fuel with
-  | zero => intro i s _ h; omega
+  | zero => intro i s _ _ _ h; omega
   | succ fuel ih =>
-    intro i s hL hfuel
+    intro i s hN hE hL hfuel
     cases hbh : dbufHas s with
     | true =>
       rw [drunS_buf _ _ _ _ hbh]
       have hc := dpending_consume ds s hbh
-      have := ih i s.adv hL (by rw [hc] at hfuel; simp at hfuel; omega)
+      have := ih i s.adv hN hE hL (by rw [hc] at hfuel; simp at hfuel; omega)
       rw [hc]
-      exact ⟨by simp [this.1], this.2⟩
+      exact ⟨by simp [this.1], this.2.1, this.2.2⟩
     | false =>
       cases hlb : s.lastBatch with
       | true =>
-        rw [drunS_stop _ _ _ _ hbh (by rw [dapply_lastBatch _ _ _ hlb]; exact hbh)]
+        rw [drunS_stop _ _ _ _ hbh (by rw [dapply_lastBatch _ _ _ hlb]; exact hE)
+          (by rw [dapply_lastBatch _ _ _ hlb]; exact hbh)]
         simp [dpending_lastBatch ds s hbh hlb]
       | false =>
-        rcases dapply_hist ds hd hp ks cap i s (by omega) hbh hlb with ⟨hp0, hstop⟩ | ⟨hgo, hpe, hlim⟩
-        · rw [drunS_stop _ _ _ _ hbh hstop]
+        obtain ⟨⟨he', hn'⟩, hcase⟩ := dapply_hist ds hd hp ks cap i s hN hE (by omega) hbh hlb
+        rcases hcase with ⟨hp0, hstop⟩ | ⟨hgo, hpe, hlim⟩
+        · rw [drunS_stop _ _ _ _ hbh he' hstop]
           simp [hp0]
-        · rw [drunS_go _ _ _ _ hbh hgo]
+        · rw [drunS_go _ _ _ _ hbh he' hgo]
           have hc := dpending_consume ds _ hgo
           have := ih (i + 1) (s.apply (dlgServer ds ks cap i s.off s.limit).1
-              (dlgServer ds ks cap i s.off s.limit).2).adv (by simpa [DIter.adv, hlim] using hL)
+              (dlgServer ds ks cap i s.off s.limit).2).adv (by simpa [DIter.adv, hn'] using hN)
+            (by simpa [DIter.adv] using he') (by simpa [DIter.adv, hlim] using hL)
             (by rw [← hpe, hc] at hfuel; simp at hfuel; omega)
           rw [← hpe, hc]
-          exact ⟨by simp [this.1], this.2⟩
+          exact ⟨by simp [this.1], this.2.1, this.2.2⟩
+
+theorem drunS_err (srv : DServer) (fuel i : Nat) (s : DIter) (h : dbufHas s = false)
+    (he : (s.apply (srv i s.off s.limit).1 (srv i s.off s.limit).2).err = true) :
+    drunS srv (fuel + 1) i s = { yields := [], reqs := [(s.off, s.limit)], done := true, err := true } := by
+  rw [drunS]; simp only [h, he, Bool.false_eq_true, if_false, if_true]
+
+/-- Whatever entities are missing: what is yielded is a prefix of what was pending (so nothing is yielded
+twice and nothing out of order), the iteration ends, and unless it ends with an error the prefix is
+everything. -/
+theorem drunS_prefix (ds : List Dlg) (hd : DescD ds) (hp : ∀ x ∈ ds, x ≠ Dlg.zero) (ks : List Kind)
+    (cap : Nat) (hcap : 0 < cap) :
+    ∀ (fuel i : Nat) (s : DIter), s.err = false → 0 < s.limit → (dpending ds s).length < fuel →
+      ∃ rest, (drunS (dlgServer ds ks cap) fuel i s).yields ++ rest = dpending ds s ∧
+        (drunS (dlgServer ds ks cap) fuel i s).done = true ∧
+        ((drunS (dlgServer ds ks cap) fuel i s).err = false → rest = []) := by
+  intro fuel
+  induction fuel with
+  | zero => intro i s _ _ h; omega
+  | succ fuel ih =>
+    intro i s hE hL hfuel
+    cases hbh : dbufHas s with
+    | true =>
+      rw [drunS_buf _ _ _ _ hbh]
+      have hc := dpending_consume ds s hbh
+      obtain ⟨rest, h1, h2, h3⟩ := ih i s.adv hE hL (by rw [hc] at hfuel; simp at hfuel; omega)
+      exact ⟨rest, by rw [hc]; simp [h1], h2, h3⟩
+    | false =>
+      cases hlb : s.lastBatch with
+      | true =>
+        rw [drunS_stop _ _ _ _ hbh (by rw [dapply_lastBatch _ _ _ hlb]; exact hE)
+          (by rw [dapply_lastBatch _ _ _ hlb]; exact hbh)]
+        exact ⟨[], by simp [dpending_lastBatch ds s hbh hlb], rfl, fun _ => rfl⟩
+      | false =>
+        rcases dapply_gen ds hd hp ks cap i s hE (by omega) hbh hlb with herr | ⟨⟨he', _⟩, hcase⟩
+        · rw [drunS_err _ _ _ _ hbh herr]
+          exact ⟨dpending ds s, by simp, rfl, fun h => by simp at h⟩
+        · rcases hcase with ⟨hp0, hstop⟩ | ⟨hgo, hpe, hlim⟩
+          · rw [drunS_stop _ _ _ _ hbh he' hstop]
+            exact ⟨[], by simp [hp0], rfl, fun _ => rfl⟩
+          · rw [drunS_go _ _ _ _ hbh he' hgo]
+            have hc := dpending_consume ds _ hgo
+            obtain ⟨rest, h1, h2, h3⟩ := ih (i + 1) (s.apply (dlgServer ds ks cap i s.off s.limit).1
+                (dlgServer ds ks cap i s.off s.limit).2).adv
+              (by simpa [DIter.adv] using he') (by simpa [DIter.adv, hlim] using hL)
+              (by rw [← hpe, hc] at hfuel; simp at hfuel; omega)
+            exact ⟨rest, by rw [← hpe, hc]; simp [h1], h2, h3⟩
 
 end TdModel.C39
